@@ -12,6 +12,7 @@ package main
 import (
 	"bufio"
 	"bytes"
+	"encoding/binary"
 	"encoding/json"
 	"errors"
 	"fmt"
@@ -151,6 +152,10 @@ type crPhase struct {
 	// reached the disk and before the CARv2 header write: the image the next phase resumes from
 	// has the finished file's bytes with the 40 header bytes still zero.
 	Crashed bool `json:"crashed,omitempty"`
+	// TornUnfin k > 0: after this (finalizing) phase a reopen started and crashed inside its own
+	// un-finalizing: the index was truncated away, the 16 characteristics bytes were cleared and k
+	// bytes of the 24-byte offsets write had reached the disk.
+	TornUnfin int `json:"torn_unfinalize,omitempty"`
 }
 
 type crShape struct {
@@ -243,7 +248,7 @@ func (s *crSession) record(dir string) error {
 		}
 		st, err := openStoreOn(s.Kind, path, mem, s.Roots, s.O, ph.Resume)
 		if err != nil {
-			if pi > 0 && s.Shape.Phases[pi-1].Crashed {
+			if pi > 0 && (s.Shape.Phases[pi-1].Crashed || s.Shape.Phases[pi-1].TornUnfin > 0) {
 				// refusing to resume a crashed file is acceptable (C06); there is no session to enumerate then
 				return errResumeRefused
 			}
@@ -270,6 +275,25 @@ func (s *crSession) record(dir string) error {
 			}
 		} else if s.Kind == "blockstore" {
 			st.Discard()
+		}
+		if ph.TornUnfin > 0 && !last && !s.O.V1 {
+			img := current()
+			if len(img) >= 51 {
+				end := int(binary.LittleEndian.Uint64(img[27:35]) + binary.LittleEndian.Uint64(img[35:43]))
+				if end > 51 && end <= len(img) {
+					img = img[:end]
+					for i := 11; i < 27+ph.TornUnfin; i++ {
+						img[i] = 0
+					}
+					if s.Kind == "blockstore" {
+						if err := os.WriteFile(path, img, 0o644); err != nil {
+							return err
+						}
+					} else {
+						mem.data = append(mem.data[:0], img...)
+					}
+				}
+			}
 		}
 		if ph.Crashed && !last && !s.O.V1 {
 			// the header is the last write of Finalize: without it bytes 11..50 are still zero
@@ -597,22 +621,27 @@ var _ = runtime.NumCPU
 
 func crashShapes(thorough bool) []crShape {
 	sh := []crShape{
-		{"put2-finalize", []crPhase{{false, []string{"b1", "b4"}, true, false}}},
-		{"empty-finalize", []crPhase{{false, nil, true, false}}},
-		{"boundary-blocks", []crPhase{{false, []string{"b12", "b13", "b5"}, true, false}}},
-		{"finalized-then-resumed", []crPhase{{false, []string{"b1"}, true, false}, {true, []string{"b4"}, true, false}}},
-		{"discarded-then-resumed", []crPhase{{false, []string{"b1", "b5"}, false, false}, {true, []string{"b4"}, true, false}}},
+		{"put2-finalize", []crPhase{{false, []string{"b1", "b4"}, true, false, 0}}},
+		{"empty-finalize", []crPhase{{false, nil, true, false, 0}}},
+		{"boundary-blocks", []crPhase{{false, []string{"b12", "b13", "b5"}, true, false, 0}}},
+		{"finalized-then-resumed", []crPhase{{false, []string{"b1"}, true, false, 0}, {true, []string{"b4"}, true, false, 0}}},
+		{"discarded-then-resumed", []crPhase{{false, []string{"b1", "b5"}, false, false, 0}, {true, []string{"b4"}, true, false, 0}}},
 		// the first session itself crashed inside Finalize (index on disk, header not yet): the resumed session's
 		// crash points include tearing a section over the stale index bytes
-		{"crashed-in-finalize-then-resumed", []crPhase{{false, []string{"b1", "b4"}, true, true}, {true, []string{"b13", "b9"}, true, false}}},
-		{"resumed-no-puts", []crPhase{{false, []string{"b1", "b4"}, true, false}, {true, nil, true, false}}},
+		{"crashed-in-finalize-then-resumed", []crPhase{{false, []string{"b1", "b4"}, true, true, 0}, {true, []string{"b13", "b9"}, true, false, 0}}},
+		{"resumed-no-puts", []crPhase{{false, []string{"b1", "b4"}, true, false, 0}, {true, nil, true, false, 0}}},
+		// a payload of more than 255 bytes: a torn DataSize field is a smaller number than the real one
+		{"payload-over-255", []crPhase{{false, []string{"b13", "b14", "b4"}, true, false, 0}}},
+		// a reopen of the finalized file crashed inside its own header clearing (DataOffset gone, the old DataSize and
+		// IndexOffset still there); the next reopen resumes, puts and finalizes: its torn header writes meet the stale fields
+		{"torn-unfinalize-then-resumed", []crPhase{{false, []string{"b1", "b4"}, true, false, 5}, {true, []string{"b13"}, true, false, 0}}},
 	}
 	if thorough {
 		sh = append(sh,
-			crShape{"put3-mixed-hashes", []crPhase{{false, []string{"b6", "b8", "b10", "b1"}, true, false}}},
-			crShape{"twice-resumed", []crPhase{{false, []string{"b1"}, true, false}, {true, []string{"b4"}, false, false}, {true, []string{"b14"}, true, false}}},
-			crShape{"resume-then-discard-style", []crPhase{{false, []string{"b13"}, false, false}, {true, []string{"b14", "b3"}, false, false}}},
-			crShape{"big-block", []crPhase{{false, []string{"b15"}, true, false}}},
+			crShape{"put3-mixed-hashes", []crPhase{{false, []string{"b6", "b8", "b10", "b1"}, true, false, 0}}},
+			crShape{"twice-resumed", []crPhase{{false, []string{"b1"}, true, false, 0}, {true, []string{"b4"}, false, false, 0}, {true, []string{"b14"}, true, false, 0}}},
+			crShape{"resume-then-discard-style", []crPhase{{false, []string{"b13"}, false, false, 0}, {true, []string{"b14", "b3"}, false, false, 0}}},
+			crShape{"big-block", []crPhase{{false, []string{"b15"}, true, false, 0}}},
 		)
 	}
 	return sh
@@ -626,6 +655,8 @@ func crashConfigs(thorough bool) []sOpts {
 		{Maxcid: 2048, Codec: "mh", Ident: true},
 		// index padding + ZeroLengthSectionAsEOF: a resume reads through the padding of an interrupted Finalize
 		{Maxcid: 2048, Codec: "mh", Ipad: 100, Zero: true},
+		// data padding of the size of a small archive: offsets computed relative to the payload and to the file differ by it
+		{Maxcid: 2048, Codec: "mh", Dpad: 1024},
 	}
 	if thorough {
 		c = append(c, sOpts{Maxcid: 2048, Codec: "mh", Dpad: 1413, Ipad: 1407, Ident: true, Dup: true},
